@@ -283,6 +283,10 @@ DIRECTED = [
     ("Select(Where(EventDataset(), lambda e: Count(e.jets) > 0), lambda e: First(SelectMany(e.jets, lambda j: Select(j.trks, lambda k: {'trk': k, 'jet': j}))).trk.pt)", False),
     ("Select(Where(EventDataset(), lambda e: Count(e.jets) > 0), lambda e: First(Where(Select(e.jets, lambda j: {'j': j, 'm': e.met}), lambda d: d.m > 1)).j.pt)", False),
     ("Select(Where(EventDataset(), lambda e: Count(e.jets) > 0), lambda e: First(Where(Select(e.jets, lambda j: (j, e.met)), lambda d: d[1] > 1))[0].pt)", False),
+    # ... a CALLED field behind a variable that stands for such a First(..), and behind a First held by a field of another First's record
+    ("Select(Select(Where(EventDataset(), lambda e: Count(e.jets) > 0), lambda e: First(SelectMany(e.jets, lambda j: Select(j.trks, lambda k: {'p': k.m, 'j': j})))), lambda d: d.p())", False),
+    ("Select(Select(Where(EventDataset(), lambda e: Count(e.jets) > 0), lambda e: First(Where(Select(e.jets, lambda j: {'p': j.m, 'q': j.eta}), lambda r: r.q > 0))), lambda d: d.p(1) + d.q)", False),
+    ("Select(Select(Where(EventDataset(), lambda e: Count(e.jets) > 0), lambda e: First(Select(e.jets, lambda j: {'pt': j.m, 'trk': First(Select(j.trks, lambda k: {'z': k.m, 'j': j}))}))), lambda d: d.trk.z() + d.pt())", False),
     # stage lambdas with a defaulted parameter the operator never fills
     ("Select(Select(EventDataset(), lambda e, scale=2, /: (e.jets, e.met * scale)), lambda t: Count(t[0]) + t[1])", False),
     ("Select(Select(EventDataset(), lambda e, /, scale=2: {'j': e.jets, 'm': e.met * scale}), lambda t, *, k=1: Count(t.j) + t.m + k)", False),
